@@ -277,11 +277,12 @@ func populateStruct(originalVal reflect.Value, vs []FieldValueTuple, inputIndex 
 				return inputIndex, false, fmt.Errorf("nested value %s under %s cannot be set", nestedVal, originalVal)
 			}
 
-			if !vs[inputIndex].Value.Type().AssignableTo(nestedVal.Type()) {
+			leafVal, assignable := assignableOrConverted(vs[inputIndex].Value, nestedVal.Type())
+			if !assignable {
 				return inputIndex, false, fmt.Errorf("error unmangling. Expected type %s. Actual type %s", vs[inputIndex].Value.Type(), nestedVal.Type())
 			}
-			if !isNil(vs[inputIndex].Value) {
-				nestedVal.Set(vs[inputIndex].Value)
+			if !isNil(leafVal) {
+				nestedVal.Set(leafVal)
 				anyChildSet = true
 			}
 			inputIndex++
@@ -292,13 +293,29 @@ func populateStruct(originalVal reflect.Value, vs []FieldValueTuple, inputIndex 
 		}
 		return inputIndex, anyChildSet, nil
 	}
-	val := vs[inputIndex].Value
+	val, assignable := assignableOrConverted(vs[inputIndex].Value, originalVal.Type())
+	if !assignable {
+		return inputIndex, false, fmt.Errorf("error unmangling. Expected type %s. Actual type %s", vs[inputIndex].Value.Type(), originalVal.Type())
+	}
 	if !isNil(val) {
 		originalVal.Set(val)
 		anyChildSet = true
 	}
 	inputIndex++
 	return inputIndex, anyChildSet, nil
+}
+
+// assignableOrConverted returns v in a form that can be Set on a value of type
+// t. Leaves of user-defined named types (e.g. `type Level uint8`) arrive with
+// their underlying type from manglers such as the StringCastingMangler.
+func assignableOrConverted(v reflect.Value, t reflect.Type) (reflect.Value, bool) {
+	if v.Type().AssignableTo(t) {
+		return v, true
+	}
+	if v.Type().ConvertibleTo(t) {
+		return v.Convert(t), true
+	}
+	return v, false
 }
 
 // ShouldRecurse returns false because Mangle walks through nested structs and doesn't need Transform's recursion
